@@ -86,7 +86,7 @@ def io_outcomes(f, prim):
     start = f.node_pos(call)[0]
     closing = set(i for i in q.calls(f) if re.search(r"_closingClients\.append|->onClosed\(\)", f.r(i)))
     out = {}
-    for cls, v, err in (("would-block", -1, 0), ("error", -1, 104), ("closed", 0, 0), ("partial", 5, 0)):
+    for cls, v, err in (("would-block", -1, 0), ("error", -1, 104), ("closed", 0, 0), ("partial", 5, 0), ("full", 10, 0)):
         val = {var: v, "Socket::getLastError()": err, "size": 10, "maxSize": 10, "postponed": 1, "this->_suspended": 0, "client._suspended": 0,
                "client._sendBuffer.isEmpty()": 0, "this->_sendBuffer.isEmpty()": 1}
         seen, end = fin.walk(f, start, val)
@@ -95,5 +95,7 @@ def io_outcomes(f, prim):
             seen = seen[seen.index(call):]
         # stop at the loop back-edge of run(): a `continue` shows as reaching the call's block again; walk() has a step limit instead
         hit = [e for e in seen if e in closing]
-        out[cls] = (bool(hit), end)
+        buffered = any(re.search(r"_sendBuffer\.append\(", f.r(e)) for e in seen if f.nodes[e]["k"] in ("CXXMemberCallExpr",))
+        retv = fin.eval_expr(f, f.nodes[end]["c"][0], val) if isinstance(end, int) and f.nodes[end]["c"] else None
+        out[cls] = (bool(hit), end, buffered, retv)
     return out
